@@ -639,12 +639,14 @@ Builtin(N, st, name, a, multi, ln) ==
                                   Rep(k) == IF k <= 0 THEN <<>> ELSE b \o Rep(k - 1) IN
                               RetV(st, <<Str(Rep(c[2]))>>, multi)))
       [] name = "co.create" ->
-           (IF ~(a1[1] = "f") THEN (IF IsFn(a1) THEN Unmod(st, "coroutine over host function") ELSE Fault(st, ln))
+           \* deviation named on purpose: Lua 5.1 demands a Lua function here; gopher-lua (like Lua 5.2) also takes a
+           \* host function as the body, which then runs as the coroutine's only activation
+           (IF ~IsFn(a1) THEN Fault(st, ln)
             ELSE RetV(AllocObj(st, [o |-> "co", status |-> "suspended", started |-> FALSE, fn |-> a1,
                                     kont |-> <<>>, vals |-> <<>>, resumer |-> 0]),
                       <<<<"co", Len(st.heap) + 1>>>>, multi))
       [] name = "co.wrap" ->
-           (IF ~(a1[1] = "f") THEN (IF IsFn(a1) THEN Unmod(st, "coroutine over host function") ELSE Fault(st, ln))
+           (IF ~IsFn(a1) THEN Fault(st, ln)
             ELSE RetV(AllocObj(st, [o |-> "co", status |-> "suspended", started |-> FALSE, fn |-> a1,
                                     kont |-> <<>>, vals |-> <<>>, resumer |-> 0]),
                       <<<<"wf", Len(st.heap) + 1>>>>, multi))
